@@ -15,6 +15,7 @@ import (
 	"pgregory.net/rapid"
 
 	"verifharness/gen"
+	"verifharness/model"
 	"verifharness/obs"
 	"verifharness/run"
 )
@@ -36,6 +37,11 @@ type c16Case struct {
 	// inputs are a few KB: all positions would be thousands of runs per case)
 	Sample    int   `json:"sample,omitempty"`
 	Positions []int `json:"positions,omitempty"`
+	// Hier != nil: the subject is a generated declaration hierarchy (edi / csv2 / fixedlength2: groups, rows-based and
+	// header/footer records, min/max) with a unit sequence, as in C05, instead of Shape/Recs
+	Hier  *gen.Hierarchy `json:"hier,omitempty"`
+	Units []model.HUnit  `json:"units,omitempty"`
+	HR    *gen.HRender   `json:"hrender,omitempty"`
 	// OnlyAt restricts the enumeration to one position (used by shrunk replays); -1 = all positions
 	OnlyAt int `json:"only_at"`
 }
@@ -45,7 +51,15 @@ func genC16(t *rapid.T) c16Case {
 	if rapid.IntRange(0, 9).Draw(t, "sampleArm") == 0 {
 		c.Sample = drawSample(t, "sample")
 	}
-	if c.Sample > 0 {
+	if c.Sample == 0 && rapid.IntRange(0, 3).Draw(t, "hierArm") == 0 {
+		format := rapid.SampledFrom([]string{"edi", "csv2", "fixedlength2", "fixedlength2"}).Draw(t, "hierFormat")
+		h := gen.DrawHierarchy(t, format, gen.HierOpts{Tags: []string{"A", "B", "C", "D"}})
+		c.Hier = &h
+		c.Units = gen.DrawUnits(t, h, []string{"A", "B", "C", "D"})
+		r := gen.DrawHRender(t, format, len(c.Units))
+		c.HR = &r
+		c.Shape = gen.Shape{Format: format}
+	} else if c.Sample > 0 {
 		_, in, name, _ := sampleOf(c.Sample)
 		c.Shape = gen.Shape{Format: sampleFormat(name)}
 		for i := 0; i < 24; i++ {
@@ -114,6 +128,9 @@ func (c c16Case) wrap(r io.Reader) io.Reader {
 }
 
 func (c c16Case) input() []byte {
+	if c.Hier != nil && c.HR != nil {
+		return c.Hier.RenderUnits(c.Units, *c.HR)
+	}
 	if c.Sample > 0 {
 		_, in, _, _ := sampleOf(c.Sample)
 		return in
@@ -133,6 +150,8 @@ func checkC16(c c16Case) obs.Result {
 			return obs.Result{Excluded: "no such sample"}
 		}
 		schemaText = st
+	} else if c.Hier != nil && c.HR != nil {
+		schemaText = c.Hier.Schema(*c.HR)
 	} else {
 		schemaText = c.Shape.Schema()
 	}
@@ -154,6 +173,9 @@ func checkC16(c c16Case) obs.Result {
 	}
 	classes := []string{"format=" + c.Shape.Format}
 	only := map[int]bool{}
+	if c.Hier != nil {
+		classes = append(classes, "hierarchy")
+	}
 	if c.Sample > 0 {
 		classes = append(classes, "repo-sample")
 		for _, p := range c.Positions {
